@@ -3,7 +3,8 @@ C17 — property theorems: MDO formulations are equivalent views of the same pro
 
 Only property theorems (and the few definitions needed to state them) live here; helper lemmas are
 in `Lemmas/C17.lean` (index arithmetic), `Lemmas/C17Form.lean` (formulation-level functions),
-`Lemmas/C17Par.lean` (parallel IDF, equilibrium start, heap of returned arrays) and
+`Lemmas/C17Par.lean` (parallel IDF, equilibrium start, heap of returned arrays),
+`Lemmas/C17Buf.lean` (the adapter's array filled block by block, sparse blocks, dtype of the design vector) and
 `Lemmas/C17Alg.lean` (matrix algebra).
 
 A design vector laid out along `names` is written `cat names pt`: the concatenation of the named
@@ -13,6 +14,7 @@ the statement is about bookkeeping, and arbitrary coupled systems where it is ab
 -/
 import GemseoVerif.Lemmas.C17Form
 import GemseoVerif.Lemmas.C17Par
+import GemseoVerif.Lemmas.C17Buf
 import GemseoVerif.Lemmas.C17Alg
 
 namespace GV.C17
@@ -515,6 +517,53 @@ theorem formulation_jacobians_persist (spec : Nat → FFD) (nFun : Nat) (calls :
   have := (jacHistory_spec spec calls _ h' (JHeap.wf_empty nFun) hrun).2
   simpa [JHeap.held, JHeap.empty] using this
 
+/-! ## 12. The derivatives exposed at a point do not depend on the points visited before, nor on the storage
+of the discipline Jacobians -/
+
+/-- **The array a `DisciplineAdapter` returns is the Jacobian of the current call.**  Whatever the adapter's
+    array held before the call (`buf`: the arbitrary contents of `numpy.empty` at the first call, the Jacobian
+    of the previous design point afterwards), and whatever the storage of each block the discipline hands over
+    (`sp o i`: dense, or a sparse array built from the values, in which a block that vanishes at the current
+    point stores nothing), the loop of `_convert_jacobian_to_array` leaves in the array exactly the blocks
+    `jac o i` of this call, laid out by output slices and input slices. -/
+theorem adapter_array_is_current_jacobian (buf : BlockTable) (outs inputNames : List String)
+    (jac : String → String → Mat) (sp : String → String → Bool) (rowsOf : String → Nat) :
+    (convertJac buf outs inputNames (fun o i => JBlock.ofMat (sp o i) (jac o i))).toArray inputNames rowsOf outs
+      = gAdapterJac inputNames jac rowsOf outs := by
+  rw [convertJac_toArray]
+  simp only [JBlock.toArray_ofMat]
+
+/-- **Histories**: any number of function objects, each adapter keeping its array from one call to the next
+    (arbitrary initial contents `bufs`), any history of `jac` calls `(function object, design vector, storage
+    chosen by the discipline for each block at that call)`: the `i`-th array the caller holds after the last
+    call is `gJac` of function `f_i` at `x_i` — the pure Jacobian of sections 1–4 — in particular at a point
+    where a whole block is exactly zero after a point where it is not. -/
+theorem formulation_jacobians_current_whatever_history_and_storage (spec : Nat → FFD) (nFun : Nat)
+    (bufs : Nat → BlockTable) (calls : List (Nat × Vec × (String → String → Bool))) (h' : JHeap)
+    (hrun : jacHistoryS spec (JHeap.empty nFun) bufs calls = some h') :
+    h'.held.map some = calls.map (fun c => (spec c.1).jacAt c.2.1) := by
+  rw [jacHistoryS_eq] at hrun
+  have := formulation_jacobians_persist spec nFun _ h' hrun
+  rw [this, List.map_map]
+  rfl
+
+/-! ## 13. A design point is the same point in whatever array the caller writes it -/
+
+/-- **The numbers the disciplines read are the coordinates of the point**, when the caller passes it as an
+    array of integer dtype (admissible: every coordinate is an integer) or as the float samples of a DOE
+    carrying the declared types of a design space with integer variables (admissible: the integer variables
+    hold integers).  Every value and Jacobian of sections 1–11 is a function of these numbers, hence exposed
+    unchanged (`view` below is any of them); and the Jacobian is returned as computed — see the example after
+    `jacAstypeVariant` for what a cast to the dtype of the design vector would expose instead. -/
+theorem typed_point_is_the_same_point {α : Type} (view : Vec → α) (intMask : List Bool) (dt : DType)
+    (typed : Bool) (x : Vec)
+    (hdt : dt = DType.int → x.all isIntegral = true)
+    (hlen : typed = true → intMask.length = x.length)
+    (hint : typed = true → ∀ k, intMask.getD k false = true → isIntegral (x.getD k 0) = true) :
+    typedVector intMask dt typed x = x ∧ view (typedVector intMask dt typed x) = view x := by
+  have h := typedVector_eq intMask dt typed x hdt hlen hint
+  exact ⟨h, by rw [h]⟩
+
 /-! ## Non-vacuity: the hypotheses are satisfiable by non-trivial states -/
 
 def exSizes : Sizes := [("xs", 2), ("y2", 1), ("x1", 1), ("y1", 2)]
@@ -608,5 +657,38 @@ example : (((JHeap.empty 1).aliasingJacCall 0 [[1, 2]]).aliasingJacCall 0 [[3, 4
 def exFFD : FFD := ⟨exSys.sizes, exSys.ds.names, exD1.hasInput, exD1.jac exSys.sizes, exD1.rowsOf, ["f"]⟩
 example : (jacHistory (fun _ => exFFD) (JHeap.empty 1) [(0, [16/7, 2, 0, 18/7, 1]), (0, [1, 0, 0, 0, 0])]).map
     JHeap.held = some [[[32/7, 1, 0, 0, 0]], [[2, 1, 0, 0, 0]]] := by decide +kernel
+
+-- adapter array, block by block: `f = y2² + xs`, d f/d y2 = 2 y2 handed over as a sparse array built from its
+-- value.  First call at y2 = 3/2 (the array is `numpy.empty`: here it holds 7, 7), second call at y2 = 0 where
+-- the block vanishes (`nnz == 0`): the array holds the Jacobian of the second point
+def exBlocks (y2 : Rat) : String → String → Mat := fun _ i => if i == "y2" then [[2 * y2]] else [[1]]
+example : (JBlock.ofMat true (exBlocks 0 "f" "y2")).nnz = 0 ∧ (JBlock.ofMat true (exBlocks (3/2) "f" "y2")).nnz = 1 := by
+  decide +kernel
+example :
+    let garbage : BlockTable := [(("f", "y2"), [[7]]), (("f", "xs"), [[7]])]
+    let t1 := convertJac garbage ["f"] ["y2", "xs"] (fun o i => JBlock.ofMat true (exBlocks (3/2) o i))
+    let t2 := convertJac t1 ["f"] ["y2", "xs"] (fun o i => JBlock.ofMat true (exBlocks 0 o i))
+    t1.toArray ["y2", "xs"] (fun _ => 1) ["f"] = [[3, 1]] ∧ t2.toArray ["y2", "xs"] (fun _ => 1) ["f"] = [[0, 1]] := by
+  decide +kernel
+-- ... and what the theorem excludes: skipping the empty sparse blocks leaves d f/d y2 = 3 of the first point
+example :
+    let t1 := convertJacSkipEmpty [] ["f"] ["y2", "xs"] (fun o i => JBlock.ofMat true (exBlocks (3/2) o i))
+    let t2 := convertJacSkipEmpty t1 ["f"] ["y2", "xs"] (fun o i => JBlock.ofMat true (exBlocks 0 o i))
+    t2.toArray ["y2", "xs"] (fun _ => 1) ["f"] = [[3, 1]] := by
+  decide +kernel
+-- a history on the example system with an adapter that keeps its array: `f` of D1 (d f/d y2 = 2 y2, sparse)
+-- at y2 = 16/7, then at y2 = 0
+example : (jacHistoryS (fun _ => exFFD) (JHeap.empty 1) (fun _ => [(("f", "y2"), [[7]])])
+      [(0, [16/7, 2, 0, 18/7, 1], fun _ _ => true), (0, [0, 1, 0, 0, 0], fun _ _ => true)]).map JHeap.held
+    = some [[[32/7, 1, 0, 0, 0]], [[0, 1, 0, 0, 0]]] := by decide +kernel
+-- typed points: the point (1, 2, 1) written `array([1, 2, 1])`, and a DOE sample (1/2, 2) whose second
+-- variable is declared integer, are admissible and read unchanged
+example : typedVector [] DType.int false [1, 2, 1] = [1, 2, 1] ∧
+    typedVector [false, true] DType.float true [1/2, 2] = [1/2, 2] := by decide +kernel
+-- (outside the hypotheses: a non-integer value of an integer variable is truncated by the cast)
+example : typedVector [false, true] DType.float true [1/2, 5/2] = [1/2, 2] := by decide +kernel
+-- ... and what a cast of the returned Jacobian to the dtype of an integer design vector would expose
+example : jacAstypeVariant DType.int [[69/25, 167/20, -3/2]] = [[2, 8, -1]] ∧
+    jacAstypeVariant DType.float [[69/25, 167/20, -3/2]] = [[69/25, 167/20, -3/2]] := by decide +kernel
 
 end GV.C17
